@@ -90,12 +90,17 @@ func (c *fakeClock) Now() time.Time {
 	c.mu.Unlock()
 	// Remember what worker threads read: the scheduler measures a worker's
 	// silence from the value its Synchronize call last passed to enter().
-	if len(c.w.cfg.Workers) > 0 {
-		if a := c.w.currentActor(); a != nil && a.wk != nil {
-			c.w.mu.Lock()
-			a.noteClockValue(now)
-			c.w.mu.Unlock()
+	// For every actor: a call that has read the clock has entered the
+	// scheduler at least once (every enter() is bq.enter(bq.clock.Now())).
+	if a := c.w.currentActor(); a != nil {
+		c.w.mu.Lock()
+		if a.inCall {
+			a.nowCalls++
 		}
+		if a.wk != nil {
+			a.noteClockValue(now)
+		}
+		c.w.mu.Unlock()
 	}
 	return tickTime(now)
 }
@@ -183,6 +188,35 @@ func requestMetadataContext(toolInvocationID, correlatedInvocationsID string) co
 		panic(err)
 	}
 	return metadata.NewIncomingContext(context.Background(), metadata.Pairs("build.bazel.remote.execution.v2.requestmetadata-bin", string(b)))
+}
+
+// ---------------------------------------------------------------------------
+// Authorizers: allow everything, but "may block" (auth.Authorizer). The
+// scheduler calls most of them before it takes its lock for the first time;
+// WaitExecution and KillOperations(by name) call theirs BETWEEN two critical
+// sections (look the operation up, drop the lock, authorize, take the lock
+// again and re-validate). There the authorizer is a scheduling point at
+// which other threads and clock events may run: the call has not yet read
+// the clock for its second enter().
+
+type pointAuthorizer struct {
+	w    *world
+	kind string
+}
+
+func (pa *pointAuthorizer) Authorize(ctx context.Context, instanceNames []digest.InstanceName) []error {
+	w := pa.w
+	if !w.x.Free() {
+		if a := w.currentActor(); a != nil {
+			w.mu.Lock()
+			inWindow := a.inCall && a.nowCalls > 0
+			w.mu.Unlock()
+			if inWindow {
+				w.x.Point("authorize/" + pa.kind)
+			}
+		}
+	}
+	return make([]error, len(instanceNames))
 }
 
 // ---------------------------------------------------------------------------
@@ -339,6 +373,10 @@ func (s *stream) Send(op *longrunningpb.Operation) error {
 			w.mu.Unlock()
 			return errInjectedSend
 		}
+	} else if w.cfg.SendPoint && !w.x.Free() {
+		// A slow client / gRPC flow control: the message is "in flight"
+		// while other threads run (the scheduler lock is not held here).
+		w.x.Point("send:" + s.id)
 	}
 	var md remoteexecution.ExecuteOperationMetadata
 	if err := op.Metadata.UnmarshalTo(&md); err != nil {
